@@ -128,6 +128,26 @@ Proof.
   - vm_compute. reflexivity.
 Qed.
 
+(* the same for local variables (the second pass of the generator): for every list of locals whose names are never of
+   the form m_k and for which no n_k is taken, and every renaming that is injective on them, fresh again, and onto names
+   that are taken exactly when the original was: a local that kept its name keeps the renamed one, and the j-th renamed
+   local called n, which got n_j, gets (f n)_j *)
+Theorem C15_renaming_renames_the_locals : forall f locals used0 used0',
+  LocalsFresh locals used0 -> LocalsFresh (ren_locals f locals) used0' ->
+  (forall a b, In a (map snd locals) -> In b (map snd locals) -> f a = f b -> a = b) ->
+  (forall n, In n (map snd locals) -> in_str (f n) used0' = in_str n used0) ->
+  assign_locals locals (map snd locals) used0 [] = Some (closed_locals (fun x => x) used0 [] locals) /\
+  assign_locals (ren_locals f locals) (map snd (ren_locals f locals)) used0' [] = Some (closed_locals f used0 [] locals).
+Proof. exact rename_locals_equivariant. Qed.
+
+Example C15_renaming_locals_example :
+  let locals := [(0, "a"); (1, "v"); (2, "a"); (3, "w")]%N in
+  let f := fun n => if String.eqb n "a" then "p" else if String.eqb n "v" then "q" else "r" in
+  assign_locals locals (map snd locals) ["a"; "w"; "abs"] [] = Some [(0, "a_0"); (1, "v"); (2, "a_1"); (3, "w_0")]%N /\
+  assign_locals (ren_locals f locals) (map snd (ren_locals f locals)) ["p"; "r"; "abs"] [] = Some [(0, "p_0"); (1, "q"); (2, "p_1"); (3, "r_0")]%N /\
+  closed_locals f ["a"; "w"; "abs"] [] locals = [(0, "p_0"); (1, "q"); (2, "p_1"); (3, "r_0")]%N.
+Proof. vm_compute. repeat split. Qed.
+
 Print Assumptions C15_reserved_lists_well_formed.
 Print Assumptions C15_target_words_are_reserved.
 Print Assumptions C15_target_words_reserved_each.
@@ -138,3 +158,4 @@ Print Assumptions C15_emitted_path_names_its_symbol.
 Print Assumptions C15_renaming_renames_the_result.
 Print Assumptions C15_fresh_when_plain.
 Print Assumptions C15_reserved_words_are_plain.
+Print Assumptions C15_renaming_renames_the_locals.
